@@ -102,10 +102,10 @@ theorem send_W (c : C) (p : Pkt) (cx : Cx c L pw) (hB : c.s.ver ≠ 5 → B)
     (h : EvAll (W B L pw) c.ev) : EvAll (W B L pw) (send c p).ev := by
   unfold send
   split
-  · simp [h, W_lax.er]
+  · exact refuseSend_all W_lax c _ p h
   · rename_i hv
     split
-    · simp [h, W_lax.er]
+    · exact refuseSend_all W_lax c _ p h
     · exact processSend_W c p cx (fun hp => hB (by simp only [ne_eq, Decidable.not_not] at hv; rw [hv]; exact hp)) h
 
 end
